@@ -540,3 +540,56 @@ func FuzzHandle(f *testing.F) {
 		runCase(t, c)
 	})
 }
+
+// ---------------------------------------------------------------- regressions (fixed findings)
+
+// TestRegInsertWithoutAccessor: insert into a record that is not stored as JSON
+// (no accessor) dereferenced nil on the request goroutine and killed the process.
+func TestRegInsertWithoutAccessor(t *testing.T) {
+	for _, db := range []string{"c13hm", "c13bb", "c13fs"} {
+		ns := newNS()
+		c := &dbCase{NS: ns}
+		for i, form := range []string{"raw", "cbor", "msgpack"} {
+			c.Prefill = append(c.Prefill, prefill{Key: fmt.Sprintf("%s:%sr%d", db, ns, i), Form: form, Object: `{"Name":"x","N":1}`})
+		}
+		c.Msgs = append(c.Msgs, build(kSub, "s", "", "query "+db+":"+ns, nil))
+		for i := 0; i < 3; i++ {
+			c.Msgs = append(c.Msgs, build(kInsert, fmt.Sprintf("i%d", i), fmt.Sprintf("%s:%sr%d", db, ns, i), "", []byte(`{"N":2}`)))
+		}
+		// a JSON record whose data is empty has no accessor either
+		c.Msgs = append(c.Msgs,
+			build(kCreate, "c", db+":"+ns+"empty", "", []byte("J ")),
+			build(kInsert, "i", db+":"+ns+"empty", "", []byte(`{"N":2}`)))
+		runCase(t, c)
+	}
+}
+
+// TestRegInsertKindMatchesTypeDoesNot: inserting a JSON array / object into a
+// []string / map[string]string field of a typed record paniced in reflect.Set.
+func TestRegInsertKindMatchesTypeDoesNot(t *testing.T) {
+	ns := newNS()
+	key := "c13hm:" + ns + "typed"
+	c := &dbCase{NS: ns, Prefill: []prefill{{Key: key, Form: "typed"}}}
+	for i, p := range []string{`{"Tags":["x","y"]}`, `{"M":{"k":"w"}}`, `{"Tags":[1,2]}`, `{"M":{"k":1}}`, `{"Inner":{"X":2}}`, `{"Name":"n","N":3,"F":1.25,"B":false}`, `{"Tags":[]}`, `{"M":{}}`, `{"N":1.5}`, `{"N":"1"}`, `{"Name":null}`} {
+		c.Msgs = append(c.Msgs, build(kInsert, fmt.Sprintf("i%d", i), key, "", []byte(p)))
+	}
+	c.Msgs = append(c.Msgs, build(kGet, "g", key, "", nil))
+	runCase(t, c)
+}
+
+// TestRegInsertRacingQueryOnHashmap: on the hashmap back end an insert (Put of the
+// stored record object: record lock, then database lock) and a running query
+// (database lock, then record lock) dead-locked each other; the database stayed
+// locked for every later request.
+func TestRegInsertRacingQueryOnHashmap(t *testing.T) {
+	for round := 0; round < 6; round++ {
+		ns := newNS()
+		c := &dbCase{NS: ns, Concurrent: true, Bulk: 120, BulkDBs: []string{"c13hm"}, SendYields: 20}
+		c.Msgs = append(c.Msgs, build(kQuery, "q1", "", "query c13hm:"+ns, nil), build(kQsub, "q2", "", "query c13hm:"+ns+" where N > 10", nil))
+		for i := 0; i < 10; i++ {
+			c.Msgs = append(c.Msgs, build(kInsert, fmt.Sprintf("i%d", i), fmt.Sprintf("c13hm:%sbulk%03d", ns, (i*37+round*11)%120), "", []byte(`{"touched":true}`)))
+		}
+		c.Msgs = append(c.Msgs, build(kQuery, "q3", "", "query c13hm:"+ns+"bulk0", nil), build(kCancel, "q1", "", "", nil))
+		runCase(t, c)
+	}
+}
